@@ -36,6 +36,10 @@ Search (property oracle, independent of the model; works on the RAW snippet text
     (`-x`, `--a`, `#fff`, `.item`, `@media`, `!important`, `$var`, `x;`, `a|`), with blanks, or contain brackets / quotes /
     `${`; both callbacks (the tabstop callback shows `${n:<placeholder>}` exactly as written, the identity callback the
     placeholder itself);
+  * MINIMAL DEFINITIONS (MINIMAL_BODIES, minimal_stream): the empty string (raw, empty body: the key prints nothing), blanks
+    only, one character, a single tabstop, `a:` / `x: ` / `x:;`, a lone line break -- under overriding keys, new keys next to
+    built-in keys and unrelated new keys, in tables holding all of them and in tables holding nothing else, every scope; 10% of
+    the user snippets of every other stream that draws them;
   * HOW THE LIBRARY IS CALLED (harness/c06_calls.py), oracle only:
     CONFIG SHAPES (shape_stream, layered_stream): optional keys of the config left out vs. written out with their default
     (`syntax` for the default stylesheet syntax css, `options`, `snippets`, `context`), global config left out / {} /
@@ -383,6 +387,8 @@ PLACEHOLDER_CLASS = {ph: cls for cls, phs in RAW_PLACEHOLDERS.items() for ph in 
 def cover_snippet(ctx, src):
     """evidence: the shape of the property name / the classes of the raw placeholders of a user snippet that was typed"""
     kind = classify(src)
+    if src in MINIMAL_CLASS:
+        ctx.cover('c06:minimal-definition:' + MINIMAL_CLASS[src])
     if kind[0] == 'prop':
         ctx.cover('c06:user-prop-name:' + prop_name_shape(kind[1]))
         return
@@ -400,7 +406,41 @@ def prop_name_shape(p):
             'double-dash-inside' if '--' in p else 'dashed' if '-' in p else 'word')
 
 
+# MINIMAL DEFINITIONS.  A snippet definition is any string (README "snippets": a map from a key to the text it stands
+# for); the statement makes no exception for short ones.  The shortest definitions of each kind, read with the rule the
+# oracle's classify hard-codes: the EMPTY string (a raw snippet with the empty body: the key prints nothing -- the way a
+# user switches a built-in snippet off), blanks only, one character that cannot be a property name (a digit, punctuation,
+# an upper-case letter: raw), one lower-case letter or a dash (a property name without values: `x: <tabstop>`), a single
+# tabstop and nothing else, a property name with its colon and no value (`a:` is raw, `x: ` a property without value),
+# a lone line break (the listed finding class c06:raw-linebreak-before-field-or-end: a break at the end of the body).
+MINIMAL_BODIES = {
+    'empty': [''],
+    'blanks-only': [' ', '  ', '\t'],
+    'one-character-raw': ['0', '1', ';', ':', '.', '#', '!', '*', '_', 'A', '{}'],
+    'one-character-property': ['x', 'q', '-', '--'],
+    'single-tabstop': ['${0}', '${1}', '${1:}', '${0:x}', '${2:a b}'],
+    'name-and-colon': ['a:', 'x: ', 'x:;', 'x:0', 'x;', 'x:a;;'],
+    'line-break-only': ['\n', '\r\n'],
+}
+MINIMAL_CLASS = {b: cls for cls, bs in MINIMAL_BODIES.items() for b in bs}
+MINIMAL_ALL = [b for cls in MINIMAL_BODIES for b in MINIMAL_BODIES[cls]]
+P_MINIMAL = 0.1
+"""share of the user snippets of every stream that draws them (random user tables, global-config layers, config shapes,
+call sequences; half that share in the value tables) whose definition is a minimal one; the EMPTY definition is half of
+them (it is the one a user writes on purpose)."""
+
+
+def rand_minimal(rng, raw_only=False):
+    """raw_only: for the value tables, whose property snippets are judged by the value oracle (it reads `name:values`)"""
+    while True:
+        b = '' if rng.random() < 0.5 else rng.choice(MINIMAL_ALL)
+        if not raw_only or classify(b)[0] == 'raw':
+            return b
+
+
 def rand_snip(rng):
+    if rng.random() < P_MINIMAL:
+        return rand_minimal(rng)
     if rng.random() < 0.7:
         p = rand_prop_name(rng)
         v = rng.choice(USER_VALUES)
@@ -731,6 +771,19 @@ def run(ctx):
         'a;b a,b), number-like; expected = the body itself with each tabstop through the callback (ONE colon separates number and '
         'placeholder), both callbacks (buckets c06:raw-placeholder:*); no literal piece ends with a line break (that listed '
         'finding class stays with cssvalues_gen.RAW_BODIES).  '
+        'MINIMAL DEFINITIONS (a definition is any string): the empty string (a raw snippet with the empty body: the key prints '
+        'nothing), blanks only, one character that is no property name (digit, punctuation, upper-case letter: raw), one lower-case '
+        'letter / a dash (a property without values), a single tabstop and nothing else, a name with its colon and no value (`a:`, '
+        '`x: `, `x:;`), a lone line break -- 32 definitions in 7 classes (buckets c06:minimal-definition:*).  10%% of the user '
+        'snippets of every stream that draws them (random user tables, global-config layers, config shapes, call sequences; 5%% in '
+        'the value tables, raw ones only) are minimal, half of those the empty string.  Dedicated stream (minimal_stream): per syntax 2 (quick) / 6 '
+        '(thorough) tables that hold EVERY minimal definition once, definition i of table j under a key of class (i+j) mod 3 of '
+        '{overriding a built-in key, new key next to built-in keys (proper prefix of one / a letter repeated / a letter appended), '
+        'unrelated new key}, scopes none + one other in rotation (quick) / all four (thorough), callbacks alternating: every user key '
+        'and 6 built-in keys the table leaves alone are typed; plus one table per definition that holds NOTHING ELSE (key class and '
+        'syntax in rotation, random scope) with its key and 2 built-in keys.  Judged by the oracle; the unscoped first table of 3 '
+        '(quick) / 12 (thorough) configurations also goes through the Coq model.  Not explored: an EMPTY FIRST ALTERNATIVE (`x:|a`), '
+        'on which the statement is silent.  '
         'Oracle: raw snippet text vs output (see module docstring).  Tie: output string of the Coq model; callback events for the '
         'value stream.  Non-trivial: every case; distinct by (configuration, abbreviation).')
     cases = gen(ctx)
@@ -755,6 +808,7 @@ def run(ctx):
     shared_cache_scopes(ctx, cases)
     value_stream(ctx, ok, {syn: live_table(syn) for syn in VALUE_SYNTAXES})
     layered_stream(ctx, ok, {syn: live_table(syn) for syn in su.SYNTAXES})
+    minimal_stream(ctx, ok, {syn: live_table(syn) for syn in su.SYNTAXES})
     shape_stream(ctx, {syn: live_table(syn) for syn in su.SYNTAXES})
     sequence_stream(ctx, {syn: live_table(syn) for syn in su.SYNTAXES})
     for (cfg, s, check, tag, fkey), r in list(zip(cases, impl))[-5:]:
@@ -807,7 +861,9 @@ def rand_value_table(rng, base, size=None):
             continue
         lows.add(k.lower())
         r = rng.random()
-        if r < 0.1:
+        if rng.random() < P_MINIMAL / 2:
+            t[k] = rand_minimal(rng, raw_only=True)          # the empty definition, blanks only, one character, a single tabstop, `a:`
+        elif r < 0.1:
             t[k] = rng.choice(vg.RAW_BODIES)
         elif r < 0.2:
             t[k] = rand_raw_body(rng)          # placeholders that are CSS fragments (`:hover`, `::before`, `:`, `-x`, ..)
@@ -1095,6 +1151,155 @@ def layered_stream(ctx, ok, tables):
                     ctx.broken.append({'kind': 'correspondence', 'file': 'css-expand-global-layers', 'input': k, 'config': cfg.to_json(),
                                        'global_config': glob, 'impl': repr(results[i])[:300], 'model': repr(m)[:300]})
     ctx.cov['correspondence']['css_expand_global_layers_model'] = {'cases': len(chosen), 'configurations': nconf, 'disagreements': dis}
+
+
+# ---------------------------------------------------------------- MINIMAL definitions in user tables
+# "A user-defined snippet replaces a built-in one under the same key, is reachable under a new key" whatever the user's
+# text is -- the shortest texts included (MINIMAL_BODIES): EVERY minimal definition under an overriding key, under a new
+# key NEXT TO built-in keys (a proper prefix of one, one with a letter repeated or appended: where the fuzzy search would
+# look if the exact key were not there) and under an unrelated new key; in tables that hold all of them and in tables that
+# hold nothing else; the built-in keys the table does not mention stay reachable.
+MINIMAL_KEY_CLASSES = ('override', 'next-to-built-in', 'unrelated')
+N_MINIMAL_MODEL = {'quick': 3, 'thorough': 12}
+N_MINIMAL_REPORT = 10
+
+
+def minimal_key(rng, base, keys, lows, used, cls):
+    for _ in range(80):
+        if cls == 'override':
+            k = rng.choice(keys)
+            if k == GRADIENT_KEY or k in used:
+                continue
+            used.add(k)
+            return k
+        if cls == 'next-to-built-in':
+            b = rng.choice(keys)
+            r = rng.random()
+            if r < 0.45:
+                if len(b) < 3:
+                    continue
+                k = b[:rng.randint(2, len(b) - 1)]
+            elif r < 0.75:
+                i = rng.choice([j for j, ch in enumerate(b) if ch.isalpha()])
+                k = b[:i] + b[i] * rng.randint(1, 2) + b[i:]
+            else:
+                k = b + rng.choice('abcdxyz')
+            if not k[-1].isalpha():
+                continue
+        else:
+            k = 'z' + ''.join(rng.choice('qvkwxz') for _ in range(rng.randint(1, 4)))
+        if k.lower() in lows:
+            continue
+        lows.add(k.lower())
+        return k
+    return None
+
+
+def minimal_tables(rng, base, n_tables):
+    """tables holding EVERY minimal definition once: definition i of table j sits under a key of class (i + j) mod 3
+    -> [({key: definition}, {key: key class})]"""
+    keys = sorted(base)
+    out = []
+    for j in range(n_tables):
+        lows = {k.lower() for k in base}
+        used = set()
+        t, cls_of = {}, {}
+        order = list(MINIMAL_ALL)
+        rng.shuffle(order)
+        for i, body in enumerate(order):
+            cls = MINIMAL_KEY_CLASSES[(i + j) % 3]
+            k = minimal_key(rng, base, keys, lows, used, cls)
+            if k is not None:
+                t[k] = body
+                cls_of[k] = cls
+        out.append((t, cls_of))
+    return out
+
+
+def minimal_stream(ctx, ok, tables):
+    rng = ctx.rng
+    quick = ctx.tier == 'quick'
+    cases = []          # (cfg, abbr, check, key class | 'built-in', table kind, configuration number)
+    ci = 0
+    model_cfgs = []
+    for si, syn in enumerate(su.SYNTAXES):
+        base = tables[syn]
+        for j, (user, cls_of) in enumerate(minimal_tables(rng, base, 2 if quick else 6)):
+            eff = dict(base)
+            eff.update(user)
+            scopes = [None, SCOPES[1 + (si + j) % 3]] if quick else SCOPES
+            for sc in scopes:
+                cfg = Cfg(syntax=syn, snippets=user, context=sc, tabstop=bool((si + j + SCOPES.index(sc)) % 2))
+                if sc is None and j < (1 if quick else 2):
+                    model_cfgs.append(ci)
+                for k in user:
+                    cases.append((cfg, k, ('key', eff, k), cls_of[k], 'all-minimal', ci))
+                lows = {u.lower() for u in user}
+                for k in rng.sample(sorted(base), 6):
+                    if k.lower() not in lows:
+                        cases.append((cfg, k, ('key', eff, k), 'built-in', 'all-minimal', ci))
+                ci += 1
+    # tables whose ONLY definition is a minimal one: every definition x key class in rotation, syntaxes in rotation
+    for rnd in range(1 if quick else 3):
+        for i, body in enumerate(MINIMAL_ALL):
+            syn = su.SYNTAXES[(i + rnd) % len(su.SYNTAXES)]
+            base = tables[syn]
+            cls = MINIMAL_KEY_CLASSES[(i + rnd) % 3]
+            k = minimal_key(rng, base, sorted(base), {x.lower() for x in base}, set(), cls)
+            if k is None:
+                continue
+            user = {k: body}
+            eff = dict(base)
+            eff.update(user)
+            cfg = Cfg(syntax=syn, snippets=user, context=rng.choice([None, None, None, '@@global', '@@section', '@@property']), tabstop=bool((i + rnd) % 2))
+            cases.append((cfg, k, ('key', eff, k), cls, 'single-definition', ci))
+            for b in rng.sample(sorted(base), 2):
+                if b != k:
+                    cases.append((cfg, b, ('key', eff, b), 'built-in', 'single-definition', ci))
+            ci += 1
+    results = su.impl_expand_many([(c[0], c[1]) for c in cases])
+    nbad = 0
+    for (cfg, k, check, kcls, tkind, n), r in zip(cases, results):
+        ctx.count_eval()
+        ctx.nontrivial(('minimal', n, cfg.key(), k))
+        ctx.cover('c06:minimal-key:' + kcls)
+        ctx.cover('c06:minimal-table:' + tkind)
+        ctx.cover('c06:scope:' + str(cfg.context))
+        ctx.cover('c06:syntax:' + cfg.syntax)
+        if k in cfg.snippets:
+            cover_snippet(ctx, cfg.snippets[k])
+        bad = apply_check(check, cfg, r)
+        if bad:
+            r2 = su.impl_expand(k, cfg)          # fresh configuration
+            bad = apply_check(check, cfg, r2)
+            if bad:
+                nbad += 1
+                if nbad <= N_MINIMAL_REPORT or isinstance(bad, Finding):
+                    report_plain(ctx, cfg, k, check, None, r2, bad)
+    ctx.cov['minimal_definition_cases'] = {'configurations': ci, 'cases': len(cases), 'definitions': len(MINIMAL_ALL)}
+    if cases:
+        cfg, k, check, kcls, tkind, n = cases[-1]
+        ctx.sample({'input': k, 'config': cfg.to_json(), 'impl': repr(results[-1])[:160]})
+    if not ok:
+        return
+    # the tie: the unscoped all-minimal table of N syntaxes through the Coq model (one conversion of the table each)
+    picked = set(model_cfgs[:N_MINIMAL_MODEL[ctx.tier]])
+    chosen = [i for i, c in enumerate(cases) if c[5] in picked]
+    res = su.coq_expand(ctx, [(cases[i][0], cases[i][1]) for i in chosen], tag='c06-minimal')
+    if res is None:
+        return
+    dis = 0
+    for i, m in zip(chosen, res):
+        if m != results[i]:
+            dis += 1
+            if dis <= 5:
+                cfg, k, check = cases[i][:3]
+                ctx.say('DISAGREE css expand %r under %s\n  impl  %r\n  model %r' % (k, cfg.to_json(), results[i], m))
+                v = apply_check(check, cfg, results[i])
+                if not v or isinstance(v, Finding):
+                    ctx.broken.append({'kind': 'correspondence', 'file': 'css-expand-minimal-definitions', 'input': k, 'config': cfg.to_json(),
+                                       'impl': repr(results[i])[:300], 'model': repr(m)[:300]})
+    ctx.cov['correspondence']['css_expand_minimal_definitions_model'] = {'cases': len(chosen), 'configurations': len(picked), 'disagreements': dis}
 
 
 # ---------------------------------------------------------------- HOW the library is called: the shape of the config
